@@ -1,7 +1,7 @@
 //! C13 — valid messages with unknown header fields, flags or types are tolerated.
 //!
 //! Space: reference-built (refmsg) valid messages that differ from a normal message only by
-//!   * one header field with an unknown code (10..=255) carrying each of 6 variant payload types,
+//!   * one header field with an unknown code (10..=255) carrying each of 7 variant payload types,
 //!     placed first or last in the field array,
 //!   * unknown flag bits (each of 0x08..0x80 alone, and all together), with and without the known
 //!     flags,
@@ -61,6 +61,7 @@ pub fn payloads() -> Vec<RV> {
         RV::Array(Ty::Y, vec![RV::Y(1), RV::Y(2)]),
         RV::Struct(vec![s("a"), RV::U(1)]),
         var(RV::T(1)),
+        o("/c"),
     ]
 }
 
@@ -532,11 +533,47 @@ pub fn main(args: &Args) -> i32 {
             report.violation(x);
         }
     });
-    report.assume("the reference message layout in refmsg.rs is correct (every X is valid under the reference parser; thorough audits do not apply here)");
+    // ---- audit of the oracle's premise against libdbus: every judged X is a valid message that the
+    // reference implementation accepts, reading the known parts unchanged (never decides the property)
+    match rm::LibDbus::load() {
+        None => report.note("libdbus could not be loaded: the audit was skipped"),
+        Some(lib) => {
+            let (mut agreed, mut invalid_rejected, mut invalid_accepted, mut masked) = (0u64, 0u64, 0u64, 0u64);
+            for c in &cases {
+                let spec = x_spec(c);
+                // libdbus >= 1.13 knows code 10 (CONTAINER_INSTANCE, object path), which is in no
+                // released version of the message format this library targets; it refuses other
+                // value types for it.
+                if let Unknown::Field { code: 10, payload, .. } = c.unknown {
+                    if payloads()[payload].ty() != Ty::O {
+                        masked += 1;
+                        continue;
+                    }
+                }
+                let invalid0 = matches!(c.unknown, Unknown::Field { code: 0, .. } | Unknown::Type { code: 0 });
+                match rm::audit_with_libdbus(&lib, &spec) {
+                    Ok(_) if invalid0 => invalid_accepted += 1,
+                    Ok(_) => agreed += 1,
+                    Err(_) if invalid0 => invalid_rejected += 1,
+                    Err(e) => vcommon::machinery_failure(&format!("C13: audit failed for {}: {e}", describe(c))),
+                }
+            }
+            report.set(
+                "reference_model_audit",
+                json!({"against": "libdbus dbus_message_demarshal + header getters",
+                       "unknown_messages_accepted_and_read_like_the_base": agreed,
+                       "invalid_code_0_rejected_by_libdbus": invalid_rejected,
+                       "invalid_code_0_accepted_by_libdbus": invalid_accepted,
+                       "masked": masked,
+                       "mask": "field code 10 with a value that is not an object path (libdbus 1.14 treats 10 as CONTAINER_INSTANCE:o)"}),
+            );
+        }
+    }
+    report.assume("the reference message layout in refmsg.rs is correct (every X is valid under the reference parser and is accepted by libdbus, which reads the known parts unchanged; see reference_model_audit)");
     report.assume("field code 0 and message type 0 are INVALID per the message format, not unknown; they are enumerated and observed but not judged");
     report.assume("the stream scenario runs on the default schedule (task interleavings are not part of this property)");
     report.finish(
-        "every unknown field code x 6 payload types x positions, unknown flag-bit sets, every unknown type code, over 3 base messages x 2 byte orders; each parsed with from_bytes and fed to a real connection between normal messages. Non-trivial = distinct message bytes",
+        "every unknown field code x 7 payload types x positions, unknown flag-bit sets, every unknown type code, over 3 base messages x 2 byte orders; each parsed with from_bytes and fed to a real connection between normal messages. Non-trivial = distinct message bytes",
         true,
     )
 }
